@@ -158,6 +158,7 @@ class EqualityComparer:
                         if isinstance(dim1, Array)
                         else dim1 == dim2
                         for dim1, dim2 in zip(expr1.shape, expr2.shape, strict=True))
+                and expr1.dtype == expr2.dtype
                 and expr1.tags == expr2.tags
                 and expr1.axes == expr2.axes
                 and expr1.var_to_reduction_descr == expr2.var_to_reduction_descr
